@@ -215,6 +215,42 @@ let run_meta line =
        Printf.sprintf "1 %d %s %s" (int_of_nat e) (hex_of_bytes keys) v)
   | _ -> "?"
 
+(* ---------- anchors: "<body>|<fdefs>|<gdefs>|<cdefs>", items F<d> G<d> C<d> N<d> separated by ',', definitions by ';'
+   -> flags and the anchor sequence: c<K><n>[+] call (+ = first use), e<K><n> entry, b<K><n> back link *)
+let run_anchors line =
+  let item s =
+    let d = nat_of_int (int_of_string (String.sub s 1 (String.length s - 1))) in
+    match s.[0] with 'F' -> Call (Fn, d) | 'G' -> Call (Gl, d) | 'C' -> Call (Cn, d) | 'N' -> NoCite d | _ -> failwith "bad item" in
+  let items s = if s = "-" then [] else List.map item (split_on ',' s) in
+  let deflist s = if s = "" then [] else List.map items (String.split_on_char ';' s) in
+  match String.split_on_char '|' line with
+  | [b; f; g; c] ->
+    let d = { body = items b; fdefs = deflist f; gdefs = deflist g; cdefs = deflist c } in
+    let kc = function Fn -> "F" | Gl -> "G" | Cn -> "C" in
+    let flags = Printf.sprintf "%d%d%d" (if wf_doc d then 1 else 0) (if forward_only d then 1 else 0) (if nocite_free d then 1 else 0) in
+    (match export d with
+     | None -> flags ^ " HANG"
+     | Some (_, tr) ->
+       flags ^ " " ^ String.concat " " (List.map (function
+         | ECall (k, n, fst) -> Printf.sprintf "c%s%d%s" (kc k) (int_of_nat n) (if fst then "+" else "")
+         | EEntry (k, n) -> Printf.sprintf "e%s%d" (kc k) (int_of_nat n)
+         | EBack (k, n) -> Printf.sprintf "b%s%d" (kc k) (int_of_nat n)) tr))
+  | _ -> "?"
+
+(* ---------- heading ids: "A <level> <closing> <hextitle>" | "S1 <n> <hextitle>" | "S2 <n> <hextitle>" | "M <hexlabel>" | "R <hextitle>"
+   -> hex of the span and hex of the id *)
+let run_hid line =
+  match split_on ' ' line with
+  | ["A"; l; c; h] -> let st = Atx (nat_of_int (int_of_string l), nat_of_int (int_of_string c)) in
+    hex_of_bytes (header_span st (bytes_of_hex h)) ^ " " ^ hex_of_bytes (header_id st (bytes_of_hex h))
+  | ["S1"; n; h] -> let st = Setext1 (nat_of_int (int_of_string n)) in
+    hex_of_bytes (header_span st (bytes_of_hex h)) ^ " " ^ hex_of_bytes (header_id st (bytes_of_hex h))
+  | ["S2"; n; h] -> let st = Setext2 (nat_of_int (int_of_string n)) in
+    hex_of_bytes (header_span st (bytes_of_hex h)) ^ " " ^ hex_of_bytes (header_id st (bytes_of_hex h))
+  | ["M"; h] -> "- " ^ hex_of_bytes (manual_id (bytes_of_hex h))
+  | ["R"; h] -> "- " ^ hex_of_bytes (reference_label (bytes_of_hex h))
+  | _ -> "?"
+
 let () =
   let model = Sys.argv.(1) in
   let f = match model with
@@ -226,6 +262,8 @@ let () =
     | "bytes" -> run_bytes
     | "transclude" -> run_transclude
     | "meta" -> run_meta
+    | "anchors" -> run_anchors
+    | "hid" -> run_hid
     | _ -> failwith "unknown model" in
   try while true do
     let line = input_line stdin in
